@@ -194,8 +194,16 @@ Definition obs_eqb (a b : obs) : bool :=
 
 Record case := { c_graph : graph; c_nrc : nat; c_events : list event; c_observed : list obs }.
 
+(* graphs with a feedback edge (an upstream index not smaller than the node's) run on a generous explicit fuel; for
+   DAGs this is [run] *)
+Definition dagb (g : graph) : bool :=
+  forallb (fun i => forallb (fun u => Nat.ltb u i) (ups (gnode g i))) (seq 0 (length g)).
+Definition case_fuel (g : graph) : nat := if dagb g then fuel_for g else 600.
+Definition run_case (c : case) : list obs :=
+  run_from (case_fuel (c_graph c)) (c_graph c) (c_nrc c) (init_world (c_graph c)) (c_events c).
+
 Definition agree (c : case) : bool :=
-  list_eqb obs_eqb (run (c_graph c) (c_nrc c) (c_events c)) (c_observed c).
+  list_eqb obs_eqb (run_case c) (c_observed c).
 
 Fixpoint mismatches_from (i : nat) (cs : list case) : list nat :=
   match cs with
@@ -212,4 +220,4 @@ Fixpoint first_diff_from (i : nat) (ms os : list obs) : option (nat * option obs
   | m :: _, [] => Some (i, Some m, None)
   | [], o :: _ => Some (i, None, Some o)
   end.
-Definition first_diff (c : case) := first_diff_from 0 (run (c_graph c) (c_nrc c) (c_events c)) (c_observed c).
+Definition first_diff (c : case) := first_diff_from 0 (run_case c) (c_observed c).
